@@ -39,6 +39,10 @@ func c02Atoms(tier string) []c02Atom {
 		{Text: `m=*bar*`, Col: "m", Op: "=", Lit: "*bar*"},
 		{Text: `b=true`, Col: "b", Op: "=", Lit: "true"},
 		{Text: `foo`, Lit: "foo"},
+		// literals with characters that are special in regular expressions (the wildcard machinery must treat them literally)
+		{Text: `m="a.b"`, Col: "m", Op: "=", Lit: "a.b"},
+		{Text: `m=*.b`, Col: "m", Op: "=", Lit: "*.b"},
+		{Text: `m="a+*"`, Col: "m", Op: "=", Lit: "a+*"},
 	}
 	if tier != "thorough" {
 		return core
@@ -63,6 +67,9 @@ func c02Atoms(tier string) []c02Atom {
 		{Text: `bar`, Lit: "bar"},
 		{Text: `b=false`, Col: "b", Op: "=", Lit: "false"},
 		{Text: `zz=1`, Col: "zz", Op: "=", Lit: "1", Num: true},
+		{Text: `m="a.*"`, Col: "m", Op: "=", Lit: "a.*"},
+		{Text: `m="a+b"`, Col: "m", Op: "=", Lit: "a+b"},
+		{Text: `m!="a.b"`, Col: "m", Op: "!=", Lit: "a.b"},
 	}...)
 }
 
@@ -84,6 +91,7 @@ func c02Datasets() []c02Dataset {
 		mk("ints", []string{"1", "2", "3", "2", "-1"}, []string{`"foo"`, `"bar"`, `"foo bar"`, `"Foo"`, `"baz"`}, []string{"true", "true", "false", "false", ""}),
 		mk("floats", []string{"1.5", "2.5", "-1", "2", ""}, []string{`"foo bar"`, "", `"BAR"`, `"bar foo"`, `"foo"`}, []string{"", "true", "", "false", "true"}),
 		mk("strings", []string{`"x"`, `"X"`, `"xy"`, `"2"`, ""}, []string{`"foo"`, `"foo"`, `"foo"`, `"bar"`, `"bar"`}, []string{"true", "true", "true", "true", "false"}),
+		mk("punct", []string{"1", "2", "3", "2", "1", "3"}, []string{`"a.b"`, `"axb"`, `"a+b"`, `"aab"`, `"xa.b"`, `"a.bx"`}, []string{"true", "false", "true", "false", "true", "false"}),
 	}
 }
 
@@ -562,7 +570,7 @@ func c02AtomClass(a *c02Atom, m *MEvent) string {
 func C02() int {
 	rep := kernel.NewReport("C02", "exploration")
 	rep.Rule = "every atom, NOT atom, and A AND B / A OR B / A AND NOT B / NOT (A OR B) for all ordered atom pairs, each also under every " +
-		"time range with bounds on/next to event timestamps, × 4 datasets (mixed, ints, floats, strings) × 5 layouts × cardinality limits; " +
+		"time range with bounds on/next to event timestamps, × 5 datasets (mixed, ints, floats, strings, strings with regex metacharacters) × 5 layouts × cardinality limits; " +
 		"oracles: reference model where defined, set algebra on observed id sets, search≡where on numeric fields, range restriction. " +
 		"non-trivial = (dataset, expression) whose result is neither empty nor everything"
 	rep.Assume = []string{"model is three-valued: string-vs-number coercions, != on absent fields, substring-but-not-word free text are left undefined (no stance)",
